@@ -67,7 +67,7 @@ def main():
         open(hp, 'w').write(lib.render())
         dbp = os.path.join(wd, 'a%d.in' % i)
         opts = rng.choice([['-c', '-fnames'], ['-python-native'], ['-c', '-python', '-fnames', '-promiscuous']])
-        p = vlib.sh([b['interrogate'], '-oc', os.path.join(wd, 'a.cxx'), '-od', dbp, '-module', 'm', '-library', 'lib%d' % i] + opts + [hp], cwd=wd)
+        p = vlib.sh([b['interrogate'], '-DCPPPARSER', '-oc', os.path.join(wd, 'a.cxx'), '-od', dbp, '-module', 'm', '-library', 'lib%d' % i] + opts + [hp], cwd=wd)
         if p.returncode == 0:
             files.append(('real', [dbp]))
     for i in range(ck.scale(25, 400)):
